@@ -107,6 +107,7 @@ Inductive out :=
 | OIter (p : option (list conn))       (* None: transit gate, no iterator *)
 | OSent
 | ORule
+| OSpawn
 | OInvalid                             (* script names a gate that does not exist *)
 | OPanic (site : N)
 | OOutOfFuel.
@@ -244,7 +245,10 @@ Inductive op :=
 | Connect (a b : N) (ch : option chan)
 | Kind (g : N) | NextGate (g : N) | PathEnd (g : N) | PathIter (g : N)
 | Send (g t d b : N)          (* b = relay budget *)
-| Relay (g g' d : N).
+| Relay (g g' d : N)
+(* run time, inside at_sim_start: module [caller] executes the call; who executes it does not matter *)
+| Spawn (caller target size : N)              (* target.spawner().gate(name, size): the gates belong to [target] *)
+| RConnect (caller a b : N) (ch : option chan).
 
 Definition any_poisoned (s : state) (l : list N) : bool := existsb (is_poisoned s) l.
 
@@ -286,6 +290,18 @@ Definition q_next (s : state) (g : N) : out :=
       end
   end.
 
+Fixpoint mk_gates (k : N) (owners : list N) : gates :=
+  match owners with
+  | [] => []
+  | o :: r => (k, {| owner := o; c0 := None; c1 := None |}) :: mk_gates (k + 1) r
+  end.
+
+(* Spawner::gate: Gate::new(owner = the module the spawner is bound to, ..) for
+   each position, appended to that module's gate list; ids continue the numbering *)
+Definition spawn (s : state) (target size : N) : state :=
+  {| sgates := sgates s ++ mk_gates (N.of_nat (length (sgates s))) (repeat target (N.to_nat size));
+     poisoned := poisoned s |}.
+
 Definition step (s : state) (o : op) : state * out :=
   match o with
   | Connect a b ch => connect s a b ch
@@ -295,6 +311,8 @@ Definition step (s : state) (o : op) : state * out :=
   | PathIter g => (s, q_iter s g)
   | Send g _ _ _ => (s, match lookup (sgates s) g with Some _ => OSent | None => OInvalid end)
   | Relay g g' _ => (s, match lookup (sgates s) g, lookup (sgates s) g' with Some _, Some _ => ORule | _, _ => OInvalid end)
+  | Spawn _ target size => (spawn s target size, OSpawn)
+  | RConnect _ a b ch => connect s a b ch
   end.
 
 Fixpoint exec (s : state) (ops : list op) : state * list out :=
@@ -331,12 +349,6 @@ Fixpoint rules_of (gs : gates) (ops : list op) : list rule :=
 Definition send_one (gs : gates) (rules : list rule) (x : N * N * N * N) : list (N * sres) :=
   let '(g, t, d, b) := x in legs (N.to_nat b) gs rules fresh_header (owner_of gs g) g (t + d) 0.
 
-Fixpoint mk_gates (k : N) (owners : list N) : gates :=
-  match owners with
-  | [] => []
-  | o :: r => (k, {| owner := o; c0 := None; c1 := None |}) :: mk_gates (k + 1) r
-  end.
-
 Definition init (owners : list N) : state := {| sgates := mk_gates 0 owners; poisoned := [] |}.
 
 (* ---- wire format ---- *)
@@ -346,7 +358,11 @@ Definition init (owners : list N) : state := {| sgates := mk_gates 0 owners; poi
         | 2 g kind | 3 g next_gate | 4 g path_end | 5 g path_iter
         | 6 g t d   at time t the owner of g calls send_at(msg, g, t+d)
         | 7 g g' d  forwarding rule: a message received through g is sent on, as the same object, on g' after d ns
-        | 8 g t d b as 6, with a budget of min(b,8) relays *)
+        | 8 g t d b as 6, with a budget of min(b,8) relays
+        | 10 c m sz  at sim start module c calls m.spawner().gate(name, sz): sz new gates owned by m
+        | 11 c a b l br  at sim start module c calls a.connect(b, channel)
+      Build-time operations (1-5, 9) are executed first, in order; then, inside
+      at_sim_start, the run-time ones (6-8, 10, 11) in order; records come out in that order. *)
 Definition clamp (lo hi x : N) : N := N.max lo (N.min hi x).
 
 Fixpoint groups (nm : N) (l : list N) : list N :=
@@ -360,7 +376,7 @@ Definition norm_br (br : N) : N :=
   if br =? 0 then 0 else if (MSG_BITS * 1000000000) mod br =? 0 then br else 0.
 Definition dec_ch (l br : N) : option chan := if l =? 0 then None else Some (l - 1, norm_br br).
 
-Definition dec_op (l : list N) : option (op * list N) :=
+Definition dec_op (nm : N) (l : list N) : option (op * list N) :=
   match l with
   | 1 :: a :: b :: c :: r => Some (Connect a b (dec_ch c 0), r)
   | 9 :: a :: b :: c :: br :: r => Some (Connect a b (dec_ch c br), r)
@@ -371,6 +387,8 @@ Definition dec_op (l : list N) : option (op * list N) :=
   | 6 :: g :: t :: d :: r => Some (Send g t d 0, r)
   | 7 :: g :: g' :: d :: r => Some (Relay g g' d, r)
   | 8 :: g :: t :: d :: b :: r => Some (Send g t d (N.min b 8), r)
+  | 10 :: c :: tg :: sz :: r => Some (Spawn (c mod nm) (tg mod nm) (clamp 1 6 sz), r)
+  | 11 :: c :: a :: b :: l :: br :: r => Some (RConnect (c mod nm) a b (dec_ch l br), r)
   | _ => None
   end.
 
@@ -388,6 +406,7 @@ Definition enc_out (o : out) : list N :=
       flat_map (fun c => [endpoint c; enc_opt (option_map fst (channel c)); match channel c with Some ch => snd ch | None => 0 end]) p
   | OSent => [6]
   | ORule => [14]
+  | OSpawn => [16]
   | OInvalid => [7]
   | OOutOfFuel => [8]
   | OPanic s => [9; s]
@@ -414,11 +433,15 @@ Definition run_script (owners : list N) (ops : list op) : list N :=
   | _ => [10]          (* a mutex is poisoned: the simulation is not run *)
   end.
 
+Definition is_rt (o : op) : bool :=
+  match o with Send _ _ _ _ | Relay _ _ _ | Spawn _ _ _ | RConnect _ _ _ _ => true | _ => false end.
+
 Definition run (input : list N) : list N :=
   match input with
   | nmod :: r =>
       let nm := clamp 1 8 nmod in
       let '(grp, rest) := take_lp r in
-      run_script (groups nm grp) (decode_all dec_op rest)
+      let ops := decode_all (dec_op nm) rest in
+      run_script (groups nm grp) (filter (fun o => negb (is_rt o)) ops ++ filter is_rt ops)
   | [] => [7]
   end.
